@@ -374,7 +374,10 @@ class Schema:
                 if parent_path_str not in items:
                     items[parent_path_str] = {}
 
-                if not items[parent_path_str].get("type"):
+                if par_implicit_type in IMP_TYPE_LOOKUP and not items[
+                    parent_path_str
+                ].get("type"):
+                    # (an integer part is a map key or a list index: no type is implied)
                     items[parent_path_str]["type"] = IMP_TYPE_LOOKUP[par_implicit_type]
                     items[parent_path_str]["type_fmt"] = items[parent_path_str]["type"]
 
